@@ -118,3 +118,29 @@ Example C02_reference_nonvacuous :
   allocate_ref a 7%N (ex_req 80) (isort go_less (pinned_pools ps (ex_req 80))) (unpinned_pools ps)
   = Some (2%N, [V4 167772164%N]).
 Proof. vm_compute. reflexivity. Qed.
+
+(* ==== status level, for every history ==== *)
+From Verif Require Import Proofs.AllocMonoP Proofs.CtrlStarveP Proofs.CtrlPostP.
+
+(* every postcondition convergeBalancer establishes for the status/annotation it
+   produces holds for every Service whenever the reconciler has no pending work *)
+Theorem C02_handler_postconditions_hold_at_quiescence : forall rank (post : svcobj -> Prop),
+  (forall a s o k v ok, minv a -> converge rank a s o k = CR v ok -> post (with_status o (cv_status v) (cv_annot v))) ->
+  forall evs w, wrun rank evs world0 = Some w -> quiescent w ->
+  forall s o, aget (w_api w) s = Some o -> post o.
+Proof. exact quiescent_post. Qed.
+
+(* a Service that requests specific addresses has exactly those, or none - never
+   something else (PreferDualStack on dual-stack cluster IPs excepted: finding F22) *)
+Theorem C02_explicit_request_exact_at_quiescence : forall rank evs w s o d,
+  wrun rank evs world0 = Some w -> quiescent w -> aget (w_api w) s = Some o ->
+  o_want o = WIps d -> (is_prefer (r_pol (o_req o)) && is_dual (r_fam (o_req o))) = false ->
+  o_status o = [] \/ same_ips (o_status o) d.
+Proof. exact quiescent_explicit_exact. Qed.
+
+(* the addresses in a status match the Service's IP families: one address of the
+   cluster-IP family, a dual-stack pair, or under PreferDualStack at least one *)
+Theorem C02_status_families_at_quiescence : forall rank evs w s o,
+  wrun rank evs world0 = Some w -> quiescent w -> aget (w_api w) s = Some o -> o_status o <> [] ->
+  o_lb o = true /\ family_changed (alloc_fam (o_status o)) (r_fam (o_req o)) (r_pol (o_req o)) = false.
+Proof. exact quiescent_family_ok. Qed.
